@@ -8,7 +8,7 @@ from . import grammar as G
 from . import pyref
 from .e1 import all_summaries, loc_kind
 from .absint import LocExpr
-from .templates import Template, reach_relations
+from .templates import Template, reach_relations, reachable_without
 
 NAST = 'supp/nast.py'
 DOMAIN_EXCLUDED = set(G.OUT_OF_DOMAIN_NODES) | {'AugAssign'}
@@ -353,8 +353,9 @@ def continuity_records(repo):
 # block templates vs T3
 # ---------------------------------------------------------------------------
 
-def block_records(repo):
-    """Per (T, block a, block b): may-reach and dominance in the reference and in supp."""
+def block_records(repo, pairs=False):
+    """Per (T, block a, block b): may-reach and dominance in the reference and in supp; with pairs also joint dominance
+    of two blocks over a third."""
     out = []
     for cls, summs in summaries(repo).items():
         if cls in DOMAIN_EXCLUDED:
@@ -384,6 +385,27 @@ def block_records(repo):
                                     'ref_may': b in rmay.get(a, ()), 'supp_may': b_in in smay.get(a_out, ()),
                                     'ref_dom': a in rdom.get(b, ()), 'supp_dom': a_out in sdom.get(b_in, ()),
                                     'line': method_line(repo, cls)})
+                # joint dominance: every route to b passes a1 or a2 although neither alone is on every route (a name
+                # bound in both arms / in a later operand and in the body is certainly defined behind them)
+                names = [a for a in blocks if a not in unvisited] if pairs else []
+                for i, a1 in enumerate(names):
+                    for a2 in names[i + 1:]:
+                        for b in names + ['after']:
+                            if b in (a1, a2):
+                                continue
+                            b_in = (b, 'in') if b != 'after' else 'after'
+                            if not (b in rmay.get(a1, ()) and b in rmay.get(a2, ())
+                                    and b_in in smay.get((a1, 'out'), ()) and b_in in smay.get((a2, 'out'), ())):
+                                continue
+                            if a1 in rdom.get(b, ()) or a2 in rdom.get(b, ()):
+                                continue
+                            if (a1, 'out') in sdom.get(b_in, ()) or (a2, 'out') in sdom.get(b_in, ()):
+                                continue        # reported by the single-block comparison
+                            rj = b not in reachable_without(preds, False, {a1, a2})
+                            sj = b_in not in reachable_without(succ, True, {(a1, 'out'), (a2, 'out')})
+                            out.append({'cls': cls, 'variant': s.variant, 'a': gen(a1) + ' + ' + gen(a2), 'b': gen(b), 'pair': True,
+                                        'ref_may': True, 'supp_may': True, 'ref_dom': rj, 'supp_dom': sj,
+                                        'line': method_line(repo, cls)})
     return out
 
 
